@@ -5,6 +5,21 @@ ALL = ["C%02d" % i for i in range(1, 21)]
 
 # property -> (technique, level text, level note, design section)
 CLAIMED = {
+ "C01": ("Coq theorems over the reals (Coquelicot: RInt, Chasles, linearity, fundamental theorem) on a hand-written real-number model of esf/conv.py::convolution, and over an abstract "
+         "field (field, lia, induction) on a hand-written model of the interpolation basis; executable plan of the convolution and the basis tied by differential correspondence on the "
+         "real conv.convolution (quadrature replaced by a recorder) and on eko's basis objects",
+         "Proof: what the code integrates (range cut at x/a, early return below the support) equals the convolution integral of reg + sing(p/z - p(x)) plus p(x) loc(x) for every x in (0,1) "
+         "and every function vanishing outside [a,b]; with loc' = -sing (C03) that is the distribution reg + [sing]_+ + loc(0) delta; linear in the basis function, hence contracting "
+         "with any PDF in the span reproduces its convolution; pure delta gives loc p_j(x); accumulation over any number of channels is additive; the basis is 1 at its node and 0 at the "
+         "others on every area of every grid. PARTIAL: exact quadrature and eps = 0 are idealised (the eps borders are in the executable plan); which kernels/weights/convolution points "
+         "enter is the Combiner's (C02, C07, C09). Entries of real runs are compared with an independent reference quadrature on every run.",
+         "Trusted: Coq kernel+vm_compute, Coquelicot; harnesses; tools/lib/refconv.py + scipy in the patrol; eko's basis modelled by hand (third party).", "0.3 / 4 C01"),
+ "C19": ("Coq theorems over an abstract field (field for blocks of 2..5 nodes, induction for the Kronecker property, lia for the block rule) on the hand-written model of the interpolation "
+         "basis, tied by differential correspondence on eko's objects and on the real conv.convolution at and next to grid nodes",
+         "Proof (algebraic core): on every area of every grid the d+1 block nodes reproduce every polynomial of degree <= d exactly (d = 1..4), partition of unity, every basis function "
+         "is continuous at every node with value delta_j,node. PARTIAL: the analytic convergence for smooth PDFs through the convolution integral is not proved; it is explored on real "
+         "runs (three grid levels + degree, node vs displaced x) with calibrated bounds — a test.",
+         "Trusted: Coq kernel+vm_compute; harnesses; eko's basis modelled by hand; patrol tolerances calibrated on the unchanged tree.", "0.3 / 4 C19"),
  "C02": ("Coq theorems over an abstract field (field/ring) on a hand-written model of CouplingConstants/weight builders; "
          "model tied to the code by differential correspondence evaluated with vm_compute in exact rationals",
          "Proof: for every field of characteristic 0 (hence all real/rational sin^2, MZ, Q2, polarisation, propagator correction, CKM) "
